@@ -11,6 +11,14 @@ def _width_tree_ok(t, min_leaf, max_leaf):
         return False, desc
     x = t0[2] if const_val(t0[3]) == 1 else t0[3]
     x = strip_casts(x)
+    for _ in range(4):
+        # the Some payload of checked_ilog2 taken by a combinator (`.map_or(0, |b| b as usize + 1)`)
+        if x[0] in ("ok", "partial", "ref"):
+            x = strip_casts(x[1])
+        elif x[0] == "field" and str(x[2]).startswith("Some"):
+            x = strip_casts(x[1])
+        else:
+            break
     if not (x[0] == "call" and (x[1].endswith("::ilog2") or x[1].endswith("::checked_ilog2"))):
         return False, desc
     r = strip(x[2][0])
